@@ -22,6 +22,10 @@ type C13Case struct {
 	Events int      `json:"events,omitempty"`
 	Src    string   `json:"src"`
 	Origin string   `json:"origin,omitempty"`
+	// Probe: Src is written in a literal syntax the lexer may or may not accept (other quote characters,
+	// other integer spellings). If Compile rejects it the case is set aside; if it is accepted it is a
+	// literal "the lexer can produce" and the round trip must hold for it like for any other.
+	Probe bool `json:"probe,omitempty"`
 }
 
 var hostileRunes = []rune{'%', '%', 's', 'd', 'v', '!', '$', '{', '}', '*', '+', '?', '|', '^', '&', '<', '>', '=', '~', '@', '/', ':', 'a', ' ', ' ', '(', ')', '[', ']', ';', ',', '\\', '\n', '\r', '\t', ' ', 'é', '😀', '�', '\'', '`', '#', '-', '.', '0', 'n', 't', ' ', '　', 'x'}
@@ -233,6 +237,13 @@ func checkC13(c C13Case, r *Rec) *Violation {
 		log := &Log{}
 		cc, _ := NewConfig(u, log, Build{Mask: mask, Infix: c.Infix})
 		e, co := SafeCompile(cc, src)
+		if c.Probe && co.Panic == nil && co.Err != nil {
+			r.Class("probe-of-another-literal-syntax:rejected-by-compile")
+			return nil
+		}
+		if c.Probe {
+			r.Class("probe-of-another-literal-syntax:accepted")
+		}
 		if co.Panic != nil || co.Err != nil {
 			return Violf("C13: the source does not compile: %v\nsrc=%q infix=%v", co, src, c.Infix)
 		}
@@ -332,6 +343,27 @@ func sweepC13(tier string, shard, shards int, emit func(C13Case)) {
 	for i := 0; i < 4; i++ {
 		u.Vars = append(u.Vars, VarDecl{Name: fmt.Sprintf("b%d", i), Ty: m.TBool, Val: m.V{X: i%2 == 0}})
 		u.Vars = append(u.Vars, VarDecl{Name: fmt.Sprintf("i%d", i), Ty: m.TInt, Val: m.V{X: int64(i)}})
+	}
+	// other literal syntaxes: whatever of these the lexer accepts must round-trip
+	{
+		pu := u
+		pu.Vars = append(append([]VarDecl{}, u.Vars...), VarDecl{Name: "s0", Ty: m.TStr, Val: m.V{X: `say "hi"`}}, VarDecl{Name: "s1", Ty: m.TStr, Val: m.V{X: "a b"}})
+		var probes []string
+		for _, q := range [][2]string{{"'", "'"}, {"`", "`"}, {"\u201c", "\u201d"}, {"\u00ab", "\u00bb"}, {"\u2018", "\u2019"}, {`"""`, `"""`}, {`\"`, `\"`}} {
+			for _, content := range []string{`say "hi"`, `a b`, `it's`, `a) (b`, `;x`, `"`, ``} {
+				lit := q[0] + content + q[1]
+				probes = append(probes, "(= s0 "+lit+")", "(in s0 ("+lit+" "+q[0]+"z"+q[1]+"))", "(if b0 "+lit+" s1)", "("+lit+" "+lit+")")
+			}
+		}
+		for _, n := range []string{"0x1F", "0X1f", "1_000", "1e3", "0b101", "0o17", "017", "+5", "-0", "+0", "1.0", "1.", ".5", "१२", "１２", "0x", "1e", "--1", "+-1", "9223372036854775808", "-9223372036854775808", "-9223372036854775809", "00", "-00", "0_0"} {
+			probes = append(probes, "(= i0 "+n+")", "(in i0 ("+n+" 2))", "(+ i0 "+n+" 1)", "("+n+" "+n+")")
+		}
+		for _, w := range []string{"TRUE", "True", "FALSE", "nil", "null", "NaN", "#t", "t"} {
+			probes = append(probes, "(and b0 "+w+")", "(= b0 "+w+")", "(if "+w+" 1 2)")
+		}
+		for i, p := range probes {
+			emit(C13Case{U: pu, Tree: m.Op("and", m.Var("b0"), m.Var("b1")), Src: p, Masks: []int{0, 15}, Events: i % 3, Origin: "probe", Probe: true})
+		}
 	}
 	wideOf := func(op string, n int, bools bool) *m.Node {
 		nd := m.Op(op)
